@@ -93,6 +93,10 @@ type prefixResult struct {
 	setErr    error
 }
 
+// unfolderVariant is the user-unfolder configuration of the current run (set by
+// Run before any unfolder is built; one run at a time per process).
+var unfolderVariant int
+
 func deliverPrefix(te *model.TypeEntry, preset interface{}, evs []simkit.Ev, k int, byRef bool, measure func() uint64, x *simkit.Ctx) *prefixResult {
 	r := &prefixResult{intact: true}
 	ptr, intact, _ := te.NewTarget()
@@ -100,7 +104,7 @@ func deliverPrefix(te *model.TypeEntry, preset interface{}, evs []simkit.Ev, k i
 		te.Set(ptr, model.DeepCopy(preset))
 	}
 	r.panic = simkit.Guard(func() {
-		u, err := gotype.NewUnfolder(nil)
+		u, err := gotype.NewUnfolder(nil, model.UnfolderOpts(unfolderVariant)...)
 		if err != nil {
 			r.setErr = err
 			return
@@ -126,8 +130,18 @@ func deliverPrefix(te *model.TypeEntry, preset interface{}, evs []simkit.Ev, k i
 
 func (Engine) Run(c *simkit.Choices, x *simkit.Ctx) *simkit.Violation {
 	st := x.Stats
+	unfolderVariant = 0
+	if c.N(4) == 0 {
+		unfolderVariant = 1 + c.N(model.NumUnfolderVariants-1)
+	}
 	te := pickType(c, c.N(20) == 0)
+	if unfolderVariant != 0 && c.Bool() {
+		te = model.TypeByName([]string{"Score", "[]Score", "map[string]Score", "Scored"}[c.N(4)])
+	}
 	evs, src := genStream(c, x, te)
+	if unfolderVariant != 0 {
+		src += fmt.Sprintf("+user-unfolders-v%d", unfolderVariant)
+	}
 	if len(evs) == 0 {
 		return nil
 	}
@@ -158,6 +172,9 @@ func (Engine) Run(c *simkit.Choices, x *simkit.Ctx) *simkit.Violation {
 		}
 	}
 	pte := pickType(c, false)
+	if c.N(3) == 0 && te.Supported && !te.FoldOnly {
+		pte = te // the same type again after the restart: cached unfolders
+	}
 	probeVal := pte.Gen(c)
 	probe := reuse.RecordFold(probeVal)
 	if probe == nil {
@@ -170,7 +187,7 @@ func (Engine) Run(c *simkit.Choices, x *simkit.Ctx) *simkit.Violation {
 	var ferr error
 	if pi := simkit.Guard(func() {
 		ptr, _, val := pte.NewTarget()
-		u, err := gotype.NewUnfolder(ptr)
+		u, err := gotype.NewUnfolder(ptr, model.UnfolderOpts(unfolderVariant)...)
 		if err != nil {
 			ferr = err
 			return
